@@ -271,7 +271,8 @@ def correspondence(ctx):
                     break
                 try:
                     gs = ser.ser(g)
-                    eq = num_equal(loads_all(m[3:])[0], gs)
+                    ftol = '1e-9' if sympy.sympify(g).atoms(sympy.Float) else '1e-30'   # float-literal mappings: 15-digit arithmetic
+                    eq = num_equal(loads_all(m[3:])[0], gs, tol=ftol)
                 except Exception as ex:
                     c.count('compare-failed:' + type(ex).__name__)
                     eq = None
@@ -320,7 +321,7 @@ def correspondence(ctx):
             if not m.startswith('ok '):
                 c.disagreements.append({'input': ln[:400], 'impl': str(g)[:300], 'model': m[:300], 'note': 'rule: model refused'})
                 break
-            eq = num_equal(loads_all(m[3:])[0], ser.ser(g))
+            eq = num_equal(loads_all(m[3:])[0], ser.ser(g), tol='1e-9' if sympy.sympify(g).atoms(sympy.Float) else '1e-30')
             if eq is False:
                 c.disagreements.append({'input': ln[:400], 'impl': str(g)[:400], 'model': m[:400], 'note': 'rule value'})
                 break
@@ -374,7 +375,7 @@ def check_case(ctx, o, env, e, key, routes=('A', 'B'), limit=40):
                     new = new.T
                 # a mapping written with floating-point literals (Collela: '2.*x1') is transformed in
                 # 15-digit arithmetic: compare up to rounding
-                floats = any(sympy.sympify(v).atoms(sympy.Float) for v in entries(t))
+                floats = any(sympy.sympify(v).atoms(sympy.Float) for v in entries(t)) or env.mtype in ('affinef', 'czarnyf')
                 ok = same_value(orig, new, LOGI[:dim], rng, numeric=True, tol=1e-9 if floats else 1e-35)
         except NotImplementedError as ex:
             # an unevaluated node (Derivative of a symbolic determinant, LogicalExpr(...)) in the result
@@ -405,16 +406,25 @@ def fixed_corpus(ctx):
     cc = calc()
     rng = ctx.rng
     out = []
-    for dim, mt in ((1, 'sym'), (2, 'sym'), (2, 'polar'), (2, 'polyneg'), (3, 'poly')):
+    for dim, mt in ((1, 'sym'), (2, 'sym'), (2, 'polar'), (2, 'polyneg'), (3, 'poly'), (2, 'affinef')):
         env = MEnv(rng, dim, mt, tag='c3k')
         p = env.sf['l2'][0]
         u = env.sf['h1'][0]
         dx = env.ops[0]
         out.append((env, dx(p), 'corpus:dx(l2 function) %s %dd' % (mt, dim)))
         out.append((env, dx(p * u), 'corpus:dx(l2*h1) %s %dd' % (mt, dim)))
+        out.append((env, env.coords[0] * p, 'corpus:x*l2 %s %dd' % (mt, dim)))
         out.append((env, cc.div(env.vf['hdiv'][0]), 'corpus:div(hdiv) %s %dd' % (mt, dim)))
         if dim > 1:
             out.append((env, cc.curl(env.vf['hcurl'][0]), 'corpus:curl(hcurl) %s %dd' % (mt, dim)))
+        if (dim, mt) == (2, 'sym'):
+            # a coordinate coefficient below a LOGICAL derivative of a symbolic mapping: the chain rule
+            # df/dM[i] * dM[i]/dx̂_k of derivatives.py (seeded change C03-5 transposed it)
+            x_, y_ = env.coords
+            uu = env.sf['undefined'][0]
+            Fh = env.vf['h1'][0]
+            out.append((env, cc.laplace(x_ * y_ ** 2 * uu), 'corpus:laplace(x*y**2*u) sym'))
+            out.append((env, cc.inner(cc.grad(sympy.sin(x_) * Fh), cc.grad(Fh)), 'corpus:inner(grad(sin(x)*F),grad F) sym'))
         if (dim, mt) in ((2, 'polar'), (2, 'polyneg')):
             from sympde.calculus.matrices import Transpose
             f = sympy.sin(env.coords[0] * env.coords[1]) + env.coords[0] ** 2
